@@ -811,9 +811,12 @@ pub mod system_time_conversion {
                 i64::try_from(micros).ok()
             }
             Err(e) => {
-                // Safely convert to i64 microseconds (negative), or return None.
+                // Safely convert to i64 microseconds (negative), or return None.  The negation is
+                // done as an unsigned subtraction so that i64::MIN itself is representable.
                 let micros: u128 = e.duration().as_micros();
-                i64::try_from(micros).ok().and_then(i64::checked_neg)
+                u64::try_from(micros)
+                    .ok()
+                    .and_then(|micros| 0i64.checked_sub_unsigned(micros))
             }
         }
     }
